@@ -18,6 +18,12 @@ fn scripts() -> Vec<(Vec<(usize, Step)>, usize)> {
     out.push((sequential(&[vec![link("v"), link("t"), act(&["@sett(9)", "@setv(3)"]), cmd("t", "8")]]), 1));
     out.push((sequential(&[vec![act(&["@setv(1)", "@setw(2)", "@upd{k:1,v:1}"]), sync("v"), sync("w"), sync("m")]]), 1));
     out.push((sequential(&[vec![act(&["@updms{k:1,v:1}", "@updms{k:2,v:2}", "@remms(1)"]), act(&["@clrms", "@updms{k:3,v:3}", "@setvs(7)"])]]), 1));
+    // a sync served while a change of the lane is still pending inside the agent
+    out.push((sequential(&[vec![link("v"), cmd("v", "1"), cmd("v", "2"), sync("v"), cmd("v", "3")]]), 1));
+    out.push((sequential(&[vec![cmd("m", "@update(key:1) 1"), cmd("m", "@update(key:2) 2"), sync("m"), cmd("m", "@remove(key:1)")]]), 1));
+    for s in asys::scripts::interleavings(&[vec![link("v"), cmd("v", "1"), cmd("v", "2")], vec![sync("v")]]) {
+        out.push((s, 2));
+    }
     for s in [
         sequential(&[vec![link("v"), link("m")], vec![cmd("v", "1"), act(&["@upd{k:1,v:1}", "@clr", "@upd{k:2,v:2}"]), cmd("v", "2")]]),
         vec![(0, link("v")), (1, cmd("v", "1")), (0, link("m")), (1, act(&["@upd{k:1,v:1}", "@upd{k:1,v:2}"])), (1, cmd("v", "2"))],
@@ -29,6 +35,9 @@ fn scripts() -> Vec<(Vec<(usize, Step)>, usize)> {
 
 fn base(script: &[(usize, Step)], remotes: usize, cap: usize, budget: usize, mode: Mode) -> Cfg {
     let mut c = Cfg::basic(script.to_vec(), remotes);
+    // capacity 17 stands for: large remote channel, tiny (8 byte) lane -> runtime channels
+    let (cap, lane_buf) = if cap == 17 { (4096, 8) } else { (cap, 4096) };
+    c.lane_buf = lane_buf;
     c.cap = cap;
     c.budget = budget;
     c.mode = mode;
@@ -54,7 +63,7 @@ fn main() {
     }
     let quick = ctx.quick();
     let sc = scripts();
-    let grid: Vec<(usize, usize, Mode)> = if quick { vec![(8, 2, Mode::Eager), (4096, 64, Mode::Burst)] } else { vec![(8, 2, Mode::Eager), (8, 64, Mode::SlowRead), (4096, 64, Mode::Burst), (48, 3, Mode::Eager)] };
+    let grid: Vec<(usize, usize, Mode)> = if quick { vec![(8, 2, Mode::Eager), (4096, 64, Mode::Burst), (17, 64, Mode::Burst), (17, 2, Mode::Eager)] } else { vec![(8, 2, Mode::Eager), (8, 64, Mode::SlowRead), (4096, 64, Mode::Burst), (48, 3, Mode::Eager), (17, 64, Mode::Burst), (17, 2, Mode::Eager), (17, 3, Mode::SlowRead)] };
 
     // --- leg 1: every cut point of the canonical schedule of every configuration
     let mut cut_cfgs = vec![];
